@@ -104,7 +104,26 @@ pub fn name_tree(u: &mut Unstructured, n: usize) -> Vec<Labels> {
                 c.insert(0, vec![b'n', b'a' + (g % 26) as u8, b'a' + ((g / 26) % 26) as u8]);
                 c
             }
-            12 => gn::swap_case(&parent, u),
+            12 => {
+                if !parent.is_empty() && chance(u, 110) {
+                    // "bit-5 twin": one non-letter octet differs only in bit 5
+                    // (`_`/DEL, `-`/CR, `1`/0x11 ...) — equal under a sloppy
+                    // `| 0x20` case fold, different names for DNS
+                    let mut c = parent.clone();
+                    let li = pick(u, c.len());
+                    let bi = pick(u, c[li].len());
+                    if c[li][bi].is_ascii_alphabetic() {
+                        c[li][bi] = pickb(u, b"_-0123456789@[");
+                        if gn::wire_len(&c) <= 255 {
+                            p.push(c.clone());
+                        }
+                    }
+                    c[li][bi] ^= 0x20;
+                    c
+                } else {
+                    gn::swap_case(&parent, u)
+                }
+            }
             10 | 11 if !parent.is_empty() => {
                 // label-boundary variant: the first label swallows the wire
                 // form of the following one or two labels (`a.b.c` ->
@@ -112,8 +131,11 @@ pub fn name_tree(u: &mut Unstructured, n: usize) -> Vec<Labels> {
                 // while their label structure differs
                 let k = (1 + pick(u, 2)).min(parent.len());
                 let mut first: Vec<u8> = (0..pick(u, 3)).map(|_| pickb(u, b"xab")).collect();
+                // sometimes the swallowed length octet is replaced by the
+                // printable octet that differs from it only in bit 5
+                let or20 = chance(u, 70);
                 for l in &parent[..k] {
-                    first.push(l.len() as u8);
+                    first.push(if or20 && l.len() < 32 { l.len() as u8 | 0x20 } else { l.len() as u8 });
                     first.extend_from_slice(l);
                 }
                 if first.is_empty() || first.len() > 63 {
